@@ -5,28 +5,40 @@ from checks.c05 import Cmd, Num, num, gen_cmd, gen_seq, gen_seq_safe, safe_dur, 
 
 ID = "C06"
 LEAN_MODULE = "Ctrmml.Properties.C06"
-THEOREMS = ["C06_per_track_state", "C06_leading_blanks_skip", "C06_bar_skip", "C06_comment_invariant", "C06_comment_line_invariant", "C06_track_id_map", "C06_track_list_ids", "C06_multitrack_unfold", "C06_conditional_select_partial", "C06_nested_separator_counterexample", "C06_short_block_counterexample"]
+THEOREMS = ["C06_per_track_state", "C06_leading_blanks_skip", "C06_bar_skip", "C06_comment_invariant", "C06_comment_line_invariant", "C06_track_id_map", "C06_track_list_ids", "C06_star_decimal", "C06_multitrack_unfold", "C06_conditional_select_partial", "C06_separator_suffices", "C06_layout_run_partial", "C06_layout_invariant_partial", "C06_multitrack_eq_single_partial", "C06_multitrack_blocks_run_partial", "C06_multitrack_eq_single_blocks_partial", "C06_alternatives_clean", "C06_nested_separator_counterexample", "C06_short_block_counterexample"]
 LEVEL = "proof"
 STREAM = "mml.layouts"
 CHUNK = 100
 CASE_SECONDS = 10
-TECHNIQUE = ("Lean 4 proof (frame invariant over every command parser, lexer lemmas, scan lemmas for the conditional block) + "
-             "metamorphic differential correspondence: one abstract multi-track stream, N layouts, model<->mml_input.cpp/input.cpp/song.cpp")
-LEVEL_TEXT = ("Machine-checked theorems over the Lean models of Line_Buffer (input.cpp) and MML_Input (mml_input.cpp): track letters, digits and *n select "
-              "the documented track numbers (for every decimal numeral); a line never changes a track that is not in its track list, for EVERY text (frame "
-              "property through all command parsers: each track keeps its own octave/length/articulation state); blanks before a command are skipped, "
-              "'|' is skipped, everything after ';' is ignored, a ';' line changes nothing; a multi-track line is the sequence of per-track parses of the same column range with track_offset = index; the "
-              "conditional block selects alternative i and skips the others when no alternative contains '/', '}', ';' (PARTIAL: that hypothesis is defect "
-              "D16, proved as a counterexample and recorded as a known finding). The whole-line composition theorems (blank_insertion_invariant, "
-              "continuation_invariant, multitrack_eq_single over arbitrary command streams) are NOT proved: they are kept as C06_full_statement_* and "
-              "carried by the metamorphic correspondence stream (every layout of every generated stream parsed by the real code and by the model, the "
-              "spec demanding equal events per track across layouts and equality with the meaning of each track's command list).")
+TECHNIQUE = ("Lean 4 proof (frame invariant over every command parser; whole layouts by composing C05's per-command span theorem with one-byte steps for blanks and "
+             "bars, the header / continuation dispatch of parse_line, the per-track loop of parse_mml and the begin/end scans of conditional blocks; results modulo "
+             "source references) + metamorphic differential correspondence: one abstract multi-track stream, N layouts, model<->mml_input.cpp/input.cpp/song.cpp")
+LEVEL_TEXT = ("Machine-checked theorems over the Lean models of Line_Buffer (input.cpp) and MML_Input (mml_input.cpp). (1) Local: track letters, digits and *n select "
+              "the documented track numbers (C06_star_decimal: every decimal digit string, leading zeros included); a line never changes a track that is not in its track "
+              "list, for EVERY text (frame property through all command parsers); blanks before a command are skipped, '|' is skipped, everything after ';' is ignored, a "
+              "';' line changes nothing; a multi-track line is the sequence of per-track parses of the same column range with track_offset = index. (2) Whole layouts, for "
+              "command lists of the covered subset LCovered = the subset C05 covers (notes a-h with accidental and every duration form, r ^ l o < > Q q C s &) widened in "
+              "Proofs/LayoutCmd by D n and the event commands [ L, ] ( ) with or without number, * @ v p K E M P G t T _ __ k % with number, R and ~ (hypothesis CmdsOk: numbers are "
+              "ints the command accepts, & finds its note, R / ~ find a long enough event): C06_layout_run_partial - ANY layout (any blanks/tabs/bars between commands, a separator dropped where the spelling stays "
+              "unambiguous, ';' comments, any split into header / continuation / empty / comment lines, track lists written with letters, digits or *n) addressed to "
+              "distinct tracks is accepted and gives every listed track exactly the builder calls of the command list in order, no other track changes; "
+              "C06_layout_invariant_partial - two layouts of one command list leave the track the same (same get_events()); C06_multitrack_eq_single_partial - 'AB.. body' "
+              "gives each track what 'A body' gives it; C06_multitrack_blocks_run_partial / C06_multitrack_eq_single_blocks_partial - the same with conditional blocks: "
+              "the track at position j receives the plain commands and alternative j of every block, equal to its single-track lines, when no alternative contains '/', "
+              "';', '}' or NUL and every block has an alternative per track (that hypothesis is defect D16, proved as two counterexamples and recorded as known findings). "
+              "Results are stated modulo the source references (line, column) stamped on the track, which necessarily differ between layouts. NOT proved: the same "
+              "statements for the commands outside the covered subset (\\ \\= _{..} V '...' and the loop break /); they are kept as "
+              "C06_full_statement_layout_invariant / C06_full_statement_multitrack_eq_single and decided per generated case by the metamorphic correspondence stream (every "
+              "layout of every generated stream parsed by the real code and by the model, the spec demanding equal events per track across layouts and equality with "
+              "the meaning of each track's command list).")
 LEVEL_NOTE = ("Trusted: Lean kernel (propext, Classical.choice, Quot.sound), the hand-written models Model/Lexer, Model/TrackBuilder, Model/Mml (agreement with "
               "the C++ established by differential testing), Spec/Layout + Spec/MmlMeaning (my reading of mml_ref.md), the layout generator in checks/c06.py "
-              "(what counts as a layout of a stream), glibc strtol in the C locale. Proved in full: track_id_map, per_track_state, the local lexer/parser "
-              "lemmas. Partial: conditional_select (hypothesis = no '/', ';', NUL inside the skipped alternatives: D16). Not proved: get_num on decimal numerals "
-              "(star_decimal), the continuation dispatch lemma, conditional_block_end, and the whole-line theorems blank_insertion_invariant / continuation_invariant / "
-              "multitrack_eq_single (differential testing only).")
+              "(what counts as a layout of a stream), glibc strtol in the C locale. Proved in full: track_id_map, star_decimal, per_track_state, the local lexer/parser "
+              "lemmas. Partial: conditional_select and the block theorems (hypothesis = no '/', ';', '}', NUL inside the alternatives and one alternative per track: "
+              "D16); layout_run / layout_invariant / multitrack_eq_single (hypothesis CmdsOk = the covered command subset LCovered - C05's span theorem widened in Proofs/LayoutCmd - with numbers in range; the "
+              "layouts themselves are arbitrary). The layout theorems speak about the model's Track values modulo references; that the real parser produces the same "
+              "events as the model on layouts is what the correspondence stream checks (the proof examples are corpus cases of the stream). Oracle only: layouts "
+              "containing commands outside the covered subset, the error behaviour of rejected streams, texts that are not layouts (must be rejected).")
 RULE = ("abstract multi-track streams (1..4 tracks from letters, digits and *n incl. 0, 25, 26, 35, 36, 255, 65535; 1..4 segments addressed to sub-lists in any "
         "order; typed commands from the C05 generator; conditional blocks with one alternative per track, empty alternatives included) each rendered in 3..6 "
         "layouts: the canonical multi-track lines, the equivalent single-track lines, and random ones (partition of each segment's tracks into lines in any "
@@ -359,6 +371,19 @@ def corpus_streams():
     # empty alternatives, blocks on single-track lines
     yield [Seg([0, 1], [("c", o4), ("b", [[], [n_("d")]]), ("c", n_("e")), ("b", [[n_("f"), n_("g")], []])])], [
         ["AB o4 {/d} e {f g/}"], ["A o4 e f g", "B o4 d e"], ["A o4 {} e {f g}", "B o4 {d} e {}"], ["BA o4 { d / } e {\t/f|g}"], ["AB o4", " {/d}", " e", " {fg/} ;{"]]
+    # the concrete layouts of the proof examples (Properties/C06.lean: exMulti / exSingle, exBlocks / exBlocksB)
+    ex = [o4, n_("c"), n_("d", L(8, 1)), Cmd("r", ("D", 0)), Cmd(">"), n_("e", ("F", Num(12), 0), "s"), Cmd("S")]
+    yield [Seg([0, 1], [("c", c_) for c_ in ex])], [
+        ["AB o4 c d8. r > e+:12 &"], ["*1\to4c|d8.  r;x", "", "; note", " \t>e+:12&  | ; done", "*0\to4c|d8.  r;x", "", "; note", " \t>e+:12&  | ; done"]]
+    yield [Seg([0, 1, 2], [("c", o4), ("b", [[n_("c")], [n_("d", a="s")], [n_("g")]]), ("b", [[n_("d"), Cmd("l", L(8))], [], [n_("a", ("F", Num(12), 0))]]), ("c", n_("e")),
+                           ("b", [[], [Cmd(">"), n_("f")], []]), ("b", [[n_("g")], [n_("a")], [n_("b")]])])], [
+        ["ABC o4{c/d+/g} | {d l8/ /a:12} e", " {/>f/}{g/a/b};x"], ["A o4 c d l8 e g", "B o4 d+ e", " > f a", "C o4 g a:12 e b"]]
+    X = lambda name, v=None: Cmd("x", name, None if v is None else Num(v))
+    evs = [X("tempoBpm", 120), X("ins", 3), X("vol", 12), X("loopStart"), n_("c"), X("volDown"), n_("d"), X("volUp", 2), X("loopEnd", 4), X("segno"), X("pan", -1), X("transpose", 2), X("transposeRel", -1), X("kTranspose", 3), X("platform", 5)]
+    yield [Seg([0, 1], [("c", c_) for c_ in evs])], [
+        ["AB t120 @3 v12 [c(d)2]4 L p-1 _2 __-1 k3 %5"], ["B t120|@3\tv12 [ c ( d )2 ]4", " L p-1 _2|__-1 k3\t%5 ;end", "A t120|@3\tv12 [ c ( d )2 ]4", " L p-1 _2|__-1 k3\t%5 ;end"]]
+    yield [Seg([0, 1], [("c", n_("c", L(4))), ("c", Cmd("R", L(8))), ("c", Cmd("g", 3, "n", L(16))), ("c", n_("e"))])], [
+        ["AB c4 R8 ~d16 e"], ["A c4|R8", " ~d16\te", "B c4|R8", " ~d16\te"]]
     # hexadecimal numbers need their blank
     yield [Seg([0], [("c", n_("g", ("L", Num(12, True), 0))), ("c", n_("e")), ("c", Cmd("x", "vol", Num(10, True))), ("c", n_("a"))])], [
         ["A g$c e v$a a"], ["A g$c|e|v$a|a"], ["A g$c\te v$a", " a"]]
